@@ -46,6 +46,17 @@ where
         }
     }
 
+    /// Returns `true` if exactly this long-term pre-key bundle was already added for the member.
+    pub fn has_longterm_bundle(
+        y: &KeyRegistryState<ID>,
+        id: &ID,
+        key_bundle: &LongTermKeyBundle,
+    ) -> bool {
+        y.longterm_bundles
+            .get(id)
+            .is_some_and(|bundles| bundles.contains(key_bundle))
+    }
+
     /// Remove all expired key bundles from registry.
     pub fn remove_expired(mut y: KeyRegistryState<ID>) -> KeyRegistryState<ID> {
         y.longterm_bundles =
